@@ -357,17 +357,36 @@ func DisplayLine(l *Line, indent int) {
 // @x - The number of columns, starting from the terminal left, to the end of the last line.
 // @y - The number of actual lines on which the line spans, accounting for line wrap.
 func CoordinatesLine(l *Line, indent int) (x, y int) {
-	line := string(*l)
-	lines := strings.Split(line, "\n")
+	lines := strings.Split(string(*l), "\n")
 	usedY, usedX := 0, 0
 
-	for i, line := range lines {
-		x, y := strutil.LineSpan([]rune(line), i, indent)
-		usedY += y
-		usedX = x
+	for _, rows := range CoordinatesLines(l, indent) {
+		usedY += rows
 	}
 
+	usedX, _ = strutil.LineSpan([]rune(lines[len(lines)-1]), 0, indent)
+
 	return usedX, usedY
+}
+
+// CoordinatesLines returns the number of terminal rows used by each line of the buffer:
+// for every line followed by a newline, the rows down to the start of the next line, and
+// for the last line, the rows between the one where it starts and the one where it ends.
+func CoordinatesLines(l *Line, indent int) []int {
+	lines := strings.Split(string(*l), "\n")
+	rows := make([]int, 0, len(lines))
+
+	for i, line := range lines {
+		if i < len(lines)-1 {
+			rows = append(rows, strutil.LineRows([]rune(line), indent))
+			continue
+		}
+
+		_, y := strutil.LineSpan([]rune(line), 0, indent)
+		rows = append(rows, y)
+	}
+
+	return rows
 }
 
 // Lines returns the number of real lines in the input buffer.
